@@ -102,7 +102,7 @@ package scorch
 //@   requires forall(k, 0, len(s.root.segment), s.root.segment[k] != nil && s.root.segment[k].segment != nil)
 //@   requires all(x, uint64, implies(in(next.obsoletes, x), next.obsoletes[x] != nil))
 //@   requires s.nextSnapshotEpoch < 4611686018427387904
-//@   modifies fields(Scorch), fields(IndexSnapshot), lock(s.rootLock), map(s.ineligibleForRemoval)
+//@   modifies fields(Scorch), fields(IndexSnapshot), lock(s.rootLock), map(s.ineligibleForRemoval), s.rootPersisted[*], s.persistedCallbacks[*]
 //@   ensures !held(s.rootLock) && rheld(s.rootLock) == 0
 //@   ensures implies(result == nil, s.root != old(s.root) && rootShape(s.root) && s.root.epoch == old(s.nextSnapshotEpoch) && s.nextSnapshotEpoch == old(s.nextSnapshotEpoch) + 1)
 //@   ensures implies(result == nil && next.data != nil, len(s.root.segment) > 0 && s.root.segment[len(s.root.segment)-1].id == next.id && s.root.segment[len(s.root.segment)-1].segment == next.data && s.root.segment[len(s.root.segment)-1].deleted == nil)
@@ -112,7 +112,7 @@ package scorch
 //@   loop 0: invariant len(newSnapshot.offsets) == len(newSnapshot.segment) && len(newSnapshot.segment) <= iter && (cap(newSnapshot.segment) == 0 || fresh(newSnapshot.segment)) && (cap(newSnapshot.offsets) == 0 || fresh(newSnapshot.offsets))
 //@   loop 0: invariant runningOffsets(newSnapshot.segment, newSnapshot.offsets, len(newSnapshot.segment)) && segsOKn(newSnapshot.segment, len(newSnapshot.segment))
 //@   loop 0: invariant implies(len(newSnapshot.segment) == 0, running == 0) && implies(len(newSnapshot.segment) > 0, running == newSnapshot.offsets[len(newSnapshot.segment)-1] + segDocs(newSnapshot.segment[len(newSnapshot.segment)-1].segment)) && running <= 4294967296 * iter
-//@   loop 0: invariant docsToPersistCount <= 4294967296 * iter && memSegments <= iter && fileSegments <= iter && newSnapshot.internal != nil
-//@   loop 1: invariant newSnapshot != nil && newSnapshot.internal != nil
-//@   loop 2: invariant newSnapshot != nil && newSnapshot.internal != nil
+//@   loop 0: invariant docsToPersistCount <= 4294967296 * iter && memSegments <= iter && fileSegments <= iter && newSnapshot.internal != nil && fresh(newSnapshot.internal) && (cap(droppedSegmentFiles) == 0 || fresh(droppedSegmentFiles))
+//@   loop 1: invariant newSnapshot != nil && newSnapshot.internal != nil && fresh(newSnapshot.internal)
+//@   loop 2: invariant newSnapshot != nil && newSnapshot.internal != nil && fresh(newSnapshot.internal)
 //@   loop 3: invariant s != nil && !held(s.rootLock) && rheld(s.rootLock) == 0 && s.root == newSnapshot
